@@ -42,7 +42,7 @@ def run_tlc(module, cfg, workers=8, env=None, extra=None, timeout=3600, coverage
     ok, exit, generated, distinct, depth, coverage{action: [distinct, generated]},
     violated (list of str), printed (list of raw PrintT lines), out (full text), wall_s."""
     wd = workdir(tag or module)
-    cmd = ["java", "-XX:+UseParallelGC", "-Xss32m", "-Xmx" + heap]
+    cmd = ["java", "-Djava.io.tmpdir=" + wd, "-XX:+UseParallelGC", "-Xss32m", "-Xmx" + heap]       # (TLC's scratch directories go with the work dir)
     if deque:
         cmd.append("-Dtlc2.tool.queue.IStateQueue=StateDeque")
     cmd += ["-cp", JAR, "tlc2.TLC", "-workers", str(workers), "-metadir", os.path.join(wd, "meta"),
@@ -174,7 +174,7 @@ def validate_traces(module, cfg, traces, env=None, shards=1, timeout=3600, tag=N
             json.dump(traces[a:b], f, separators=(",", ":"))
         swd = os.path.join(wd, "s%d" % si)
         os.makedirs(swd)
-        cmd = ["java", "-XX:+UseParallelGC", "-XX:ParallelGCThreads=2", "-XX:CICompilerCount=2", "-Xss32m", "-Xmx" + heap]
+        cmd = ["java", "-Djava.io.tmpdir=" + swd, "-XX:+UseParallelGC", "-XX:ParallelGCThreads=2", "-XX:CICompilerCount=2", "-Xss32m", "-Xmx" + heap]
         if deque:
             cmd.append("-Dtlc2.tool.queue.IStateQueue=StateDeque")
         cmd += ["-cp", JAR, "tlc2.TLC", "-workers", "1", "-metadir", os.path.join(swd, "meta"),
@@ -239,7 +239,7 @@ def simulate(module, cfg, num, depth, seed, env=None, timeout=600, tag=None, wor
     """tlc -simulate file=...: returns list of behaviours; each behaviour = list of (action_name, state_text)."""
     wd = workdir(tag or (module + "-sim"))
     prefix = os.path.join(wd, "b")
-    cmd = ["java", "-XX:+UseParallelGC", "-Xmx2g", "-cp", JAR, "tlc2.TLC", "-workers", str(workers),
+    cmd = ["java", "-Djava.io.tmpdir=" + wd, "-XX:+UseParallelGC", "-Xmx2g", "-cp", JAR, "tlc2.TLC", "-workers", str(workers),
            "-metadir", os.path.join(wd, "meta"), "-noGenerateSpecTE", "-config", os.path.join(spec_dir, cfg),
            "-simulate", "file=%s,num=%d" % (prefix, num), "-depth", str(depth), "-seed", str(seed),
            os.path.join(spec_dir, module + ".tla")]
